@@ -409,6 +409,11 @@ class Interp:
             finally:
                 if st.finalbody:
                     self.block(st.finalbody, env)
+        elif isinstance(st, ast.FunctionDef):
+            # a nested helper: a closure over the defining environment (read access; `nonlocal` stores are not modelled)
+            if st.decorator_list or any(isinstance(n, (ast.Nonlocal, ast.Yield, ast.YieldFrom)) for n in ast.walk(st)):
+                raise LexUnknown(f"nested function {st.name} with decorator / nonlocal / yield")
+            env[st.name] = ("closure", st, env)
         elif isinstance(st, (ast.Import, ast.ImportFrom, ast.Global, ast.Nonlocal)):
             pass
         elif isinstance(st, ast.Assert):
@@ -628,7 +633,7 @@ class Interp:
         if isinstance(e, (ast.ListComp, ast.SetComp, ast.DictComp, ast.GeneratorExp)):
             return self.comprehension(e, env)
         if isinstance(e, ast.Lambda):
-            raise LexUnknown("lambda")
+            return ("closure", e, env)
         if isinstance(e, ast.Starred):
             raise LexUnknown("starred expression")
         raise LexUnknown(f"expression {type(e).__name__}: {ast.unparse(e)[:60]}")
@@ -685,7 +690,7 @@ class Interp:
             return ("exc", PY_EXC[id_])
         if id_ in ("len", "isinstance", "enumerate", "range", "any", "all", "min", "max", "abs", "sorted", "zip",
                    "reversed", "sum", "repr", "hasattr", "getattr", "print", "type", "frozenset", "id", "iter", "next",
-                   "map", "filter"):
+                   "map", "filter", "setattr"):
             return ("builtin", id_)
         mod = env.get("__module__")
         if mod is not None:
@@ -717,12 +722,12 @@ class Interp:
         # a module-level value computed from other module-level values (f-string, concatenation, tuple of names ...)
         busy = self.__dict__.setdefault("_mv_busy", set())
         key = (module.name, name)
-        if node is not None and key not in busy and not any(isinstance(n, (ast.Call, ast.Lambda, ast.Await, ast.Yield)) for n in ast.walk(node)
-                                                          if not (isinstance(n, ast.Call) and isinstance(n.func, ast.Attribute)
-                                                                  and n.func.attr in STR_METHODS | {"join"})):
+        if node is not None and key not in busy:
             busy.add(key)
             try:
                 return self.ev(node, {"__module__": module})
+            except LexUnknown as e:
+                raise LexUnknown(f"module-level value {module.name}.{name}: {e}")
             finally:
                 busy.discard(key)
         raise LexUnknown(f"module-level value {module.name}.{name}")
@@ -892,9 +897,53 @@ class Interp:
             return self.method(f[1], f[2], args, kwargs)
         if kind == "ext":
             return self.external(f[1], args, kwargs)
+        if kind == "closure":
+            return self.call_closure(f[1], f[2], args, kwargs)
         if kind == "class":
             raise LexUnknown(f"constructor call {f[1]}")
         raise LexUnknown(f"call {ast.unparse(e.func)}")
+
+    def call_closure(self, node, outer, args, kwargs):
+        a = node.args
+        if a.vararg or a.kwarg or a.posonlyargs:
+            raise LexUnknown("nested function with * / ** / positional-only parameters")
+        params = [x.arg for x in a.args]
+        env = dict(outer)
+        if len(args) > len(params):
+            raise PyRaise(TypeError(f"{getattr(node, 'name', '<lambda>')}() takes {len(params)} positional arguments but {len(args)} were given"))
+        bound = set()
+        for p, v in zip(params, args):
+            env[p] = v
+            bound.add(p)
+        for k, v in (kwargs or {}).items():
+            if k not in params and k not in [x.arg for x in a.kwonlyargs]:
+                raise PyRaise(TypeError(f"unexpected keyword argument {k!r}"))
+            env[k] = v
+            bound.add(k)
+        for p, d in zip(params[len(params) - len(a.defaults):], a.defaults):
+            if p not in bound:
+                env[p] = self.ev(d, outer)
+                bound.add(p)
+        for p, d in zip(a.kwonlyargs, a.kw_defaults):
+            if p.arg not in bound and d is not None:
+                env[p.arg] = self.ev(d, outer)
+                bound.add(p.arg)
+        for p in params:
+            if p not in bound:
+                raise PyRaise(TypeError(f"missing argument {p!r}"))
+        self.depth += 1
+        if self.depth > 60:
+            raise LexUnknown("recursion too deep")
+        try:
+            if isinstance(node, ast.Lambda):
+                return self.ev(node.body, env)
+            try:
+                self.block(node.body, env)
+            except _Return as r:
+                return r.v
+            return None
+        finally:
+            self.depth -= 1
 
     def construct(self, t, args):
         if t is str:
@@ -926,6 +975,16 @@ class Interp:
         raise LexUnknown(f"constructor {t}")
 
     def builtin(self, name, args, kwargs):
+        if name == "setattr":
+            o, a, v = args
+            a = uniform(a, "an attribute name")
+            if isinstance(o, Obj):
+                setattr(o, a, v)
+                return None
+            if o is _SELF:
+                self.self_attrs[a] = v
+                return None
+            raise LexUnknown("setattr target")
         if name == "len":
             x = args[0]
             if isinstance(x, YP):
